@@ -10,4 +10,5 @@ pub mod engine;
 pub mod report;
 pub mod driver;
 pub mod gen;
+pub mod render;
 pub mod props;
